@@ -1,2 +1,64 @@
 // property C07, harness c07::error_skip_payload_terminates
 // failed: reader spins on a closed stream @ src/util.rs
+// native replay: dev: panic: src/util.rs:156:21: reader spins on a closed stream; release: panic: src/util.rs:156:21: reader spins on a closed stream
+// run: cd /verif && ./replay /verif/replays/C07-error_skip_payload_terminates.rs
+/// Test generated for harness `c07::error_skip_payload_terminates` 
+///
+/// Check for `assertion`: "reader spins on a closed stream"
+
+#[test]
+fn kani_concrete_playback_error_skip_payload_terminates_8588676520060135155() {
+    let concrete_vals: Vec<Vec<u8>> = vec![
+        // 255
+        vec![255],
+        // 255
+        vec![255],
+        // 255
+        vec![255],
+        // 255
+        vec![255],
+        // 255
+        vec![255],
+        // 255
+        vec![255],
+        // 255
+        vec![255],
+        // 255
+        vec![255],
+        // 255
+        vec![255],
+        // 255
+        vec![255],
+        // 255
+        vec![255],
+        // 255
+        vec![255],
+        // 255
+        vec![255],
+        // 255
+        vec![255],
+        // 255
+        vec![255],
+        // 255
+        vec![255],
+        // 255
+        vec![255],
+        // 255
+        vec![255],
+        // 255
+        vec![255],
+        // 255
+        vec![255],
+        // 255
+        vec![255],
+        // 255
+        vec![255],
+        // 255
+        vec![255],
+        // 255
+        vec![255],
+        // 0ul
+        vec![0, 0, 0, 0, 0, 0, 0, 0],
+    ];
+    kani::concrete_playback_run(concrete_vals, error_skip_payload_terminates);
+}
